@@ -96,6 +96,7 @@ def run(ctx):
         analyse_method(f, drop_helpers, d1, d3)
 
     assignment_redocks(ctx, d1, seq)
+    append_preconditions(ctx, d1)
     redock_rule(ctx, d5, subs)
     who_may_write(ctx, d2)
     side_typing(ctx, d4)
@@ -557,3 +558,58 @@ def assignment_redocks(ctx, d1, seq):
             d1.fail(cons, 'assignment-without-redock', 'a stream enters the list without passing through _redock', f, (bad or [f.node])[0])
         else:
             d1.ok(cons, '%d entering store(s), each through _redock%s' % (len(enters), ' (loop over the whole list)' if loop_redock else ''), f)
+
+
+def append_preconditions(ctx, d1):
+    """append / insert / extend only DOCK a stream (their stated precondition: the stream is not docked on that side of any unit).
+    The library's own callers must honour it: when AbstractUnit.insert appends the line's stream to one of its port lists, the
+    stream must already have been taken off the list it sat in on that side (replace / remove through the old owner).
+    Decided per path (the flag that defers the append is a constant on each path)."""
+    prog = ctx.prog
+    f = prog.method('AbstractUnit', 'insert', rel=NET)
+    sp = f.params[1]
+    def decide(t, st):
+        # boolean locals that hold a constant on this path (the flag that defers the append)
+        lin = getattr(st, 'lin', None)
+
+        def val(x):
+            if isinstance(x, ast.Name) and lin is not None and x.id in lin.env:
+                c = lin.env[x.id].const_value()
+                return None if c is None else bool(c)
+            return None
+        if isinstance(t, ast.Name):
+            return val(t)
+        if isinstance(t, ast.BoolOp) and isinstance(t.op, ast.Or):
+            vs = [val(x) for x in t.values]
+            if any(v is True for v in vs):
+                return True
+        if isinstance(t, ast.BoolOp) and isinstance(t.op, ast.And):
+            vs = [val(x) for x in t.values]
+            if any(v is False for v in vs):
+                return False
+        return None
+    ps, _ = run_paths(f.node, max_paths=4000, decide=decide)
+    seen = {}
+    for p in ps:
+        if p.raised:
+            continue
+        released = set()
+        for e in p.events:
+            if e.kind != 'call' or not e.value or not isinstance(e.value[-1] if e.target.endswith(('append', 'insert', 'extend')) else e.value[0], Form):
+                continue
+            parts = e.target.split('.')
+            if parts[-1] in ('replace', 'remove', 'pop') and e.value[0] == Form.atom(sp) and len(parts) >= 2:
+                released.add(parts[-2].lstrip('_'))
+            if parts[-1] in ('append', 'insert', 'extend') and e.value[-1] == Form.atom(sp) and parts[0] == 'self' and len(parts) == 3:
+                side = parts[1].lstrip('_')
+                key = (e.stmt.lineno, side, parts[-1])
+                seen.setdefault(key, []).append((side in released, e))
+    if not seen:
+        raise AnalysisError('AbstractUnit.insert: no append of the inserted stream found')
+    for (ln, side, op), lst in sorted(seen.items()):
+        e = lst[0][1]
+        if all(okk for okk, _ in lst):
+            d1.ok('AbstractUnit.insert', 'self.%s.%s(%s) happens only after the stream was taken off the %s it sat in (%d paths)' % (side, op, sp, side, len(lst)), f, e.stmt)
+        else:
+            d1.fail('AbstractUnit.insert', 'append-while-docked-' + side, 'self.%s.%s(%s) runs while the stream is still listed in the %s of its old unit; the later '
+                    'replace there undocks it again, leaving it in self.%s with no %s' % (side, op, sp, side, side, 'source' if side == 'outs' else 'sink'), f, e.stmt)
